@@ -1460,7 +1460,12 @@ class TestSubprocess:
         try:
             await complete_all(self.all_futures, timeout=test.timeout)
         except asyncio.TimeoutError:
-            test.additional_error += await self._kill() or ''
+            try:
+                test.additional_error += await self._kill() or ''
+            except asyncio.CancelledError:
+                # Cancelled (--maxfail or Ctrl-C) half way through killing
+                # the process: it still has to go away, and it did time out.
+                test.additional_error += await self._kill() or ''
             test.res = TestResult.TIMEOUT
         except asyncio.CancelledError:
             # The main loop must have seen Ctrl-C.
